@@ -329,6 +329,9 @@ def check_multifile_reader(repo, chk, rule="R-multi"):
                 raise AnalysisError("load_dat_file cannot be interpreted (%d events, files %s): %s" % (n_ev, groups, e))
             except Raised as e:
                 out = "raises %s" % e
+            except (IndexError, ValueError) as e:
+                # the interpreted code itself runs out of particles / cannot reshape: what Python would raise
+                out = "raises %s: %s" % (type(e).__name__, e)
             n += 1
             why = None
             if not isinstance(out, dict) or sorted(out, key=str) != parts:
